@@ -1362,6 +1362,43 @@ impl TransportManager {
                                         .get_mut(&transport)
                                         .expect("transport to exist")
                                         .reject(endpoint.connection_id());
+
+                                    // A rejected outbound connection (e.g. the outbound limit was
+                                    // reached while the dial was in flight) concludes the dial
+                                    // attempt: clear the dial record, otherwise the peer stays in
+                                    // the dialing state forever, and report the failure.
+                                    if let Endpoint::Dialer { address, connection_id } = &endpoint {
+                                        let dial_concluded = self
+                                            .peers
+                                            .write()
+                                            .get_mut(&peer)
+                                            .is_some_and(|context| context.state.on_dial_failure(*connection_id));
+
+                                        if dial_concluded {
+                                            let address = AddressRecord::new(&peer, address.clone(), 0).address().clone();
+
+                                            for context in self.protocols.values() {
+                                                let event = InnerTransportEvent::DialFailure {
+                                                    peer,
+                                                    addresses: vec![address.clone()],
+                                                };
+
+                                                if let Err(TrySendError::Full(event)) = context.tx.try_send(event) {
+                                                    let _ = context.tx.send(event).await;
+                                                }
+                                            }
+
+                                            return Some(TransportEvent::DialFailure {
+                                                connection_id: *connection_id,
+                                                address,
+                                                error: DialError::NegotiationError(
+                                                    crate::error::NegotiationError::IoError(
+                                                        std::io::ErrorKind::ConnectionRefused,
+                                                    ),
+                                                ),
+                                            });
+                                        }
+                                    }
                                 }
                             }
                         }
